@@ -53,6 +53,8 @@ SatPattern(mv, p) ==
     IN  GroundOK(q, mv2) /\ SatFrom(q, mv2, 1, <<>>)
 
 NP == Len(R.expects)
+(* a record judges the patterns p0 .. p1 (a long pattern space is split over several records) *)
+PRange == R.p0 .. R.p1
 
 ModelsPattern(mv, p) ==
     LET q == [vars |-> R.prog.vars, cons |-> R.prog.cons \o FixCons(p)]
@@ -65,9 +67,9 @@ OutMask(o, m) == LET RECURSIVE Sum(_)
                  IN Sum(1)
 OutsOK(mv, p) == \A m \in ModelsPattern(mv, p) :
                     \A j \in DOMAIN R.outs : OutMask(R.outs[j], m) = R.outs[j].masks[p + 1]
-BadOuts(mv) == {p \in 0 .. NP - 1 : R.expects[p + 1] /\ ~OutsOK(mv, p)}
+BadOuts(mv) == {p \in PRange : R.expects[p + 1] /\ ~OutsOK(mv, p)}
 
-BadPatterns(mv) == {p \in 0 .. NP - 1 : SatPattern(mv, p) # R.expects[p + 1]}
+BadPatterns(mv) == {p \in PRange : SatPattern(mv, p) # R.expects[p + 1]}
 
 Verdict ==
     IF R.status # "ok" THEN [verdict |-> "emit:helper-raised-" \o R.exc, pattern |-> -1, nbad |-> 0]
@@ -84,5 +86,5 @@ Verdict ==
                                                ELSE "emit:admits-a-pattern-the-definition-rejects",
                pattern |-> p, nbad |-> Cardinality(bad)]
 
-Report == t = 0 \/ PrintT(ToJson([t |-> R.t] @@ Verdict))
+Report == t = 0 \/ PrintT(ToJson([t |-> R.t, p0 |-> R.p0] @@ Verdict))
 =============================================================================
